@@ -86,6 +86,67 @@ def main():
                 if par in ("in", "seam") and w[1:] != ["1"]: pred(sp, il, "generated in-bounds state does not satisfy the bounds (generator or satisfiesBounds)")
             else:
                 if fl[:1] != ["1"]: pred(sp, il, {"U": "sampleUniform", "N": "sampleUniformNear", "G": "sampleGaussian"}[kind] + " returned a state outside the bounds")
+    # ---- valid-state samplers: scripted draws vs the extracted model, then real spaces with a geometric predicate
+    try:
+        vdrv = c.build_driver("vss_driver", link_ompl=True); mbin = c.build_model()
+    except vf.BuildError as ex:
+        c.broken.append("correspondence C08: valid-state sampler driver / model does not build: " + str(ex)[-400:]); c.finish()
+    vlines = []
+    KINDS = ["uniform", "gaussian", "obstacle", "bridge", "maxclear", "minclear"]
+    for i in range(600 if quick else 20000):
+        k = KINDS[i % 6]
+        att = rng.choice([0, 1, 1, 2, 3, 5, 8]); imp = rng.choice([0, 1, 3]); clr = rng.choice([0, 1, 3, 6, 7])
+        p_inv = rng.choice([0.2, 0.5, 0.8, 1.0])
+        tape = []
+        for _ in range(rng.randint(0, 2 * att + imp + 6)):
+            r = rng.random()
+            if r < p_inv * 0.8: x = 4 * rng.randint(-25, 25)                      # invalid by the checker (multiple of 4)
+            elif r < p_inv: x = rng.choice([102, 104, -106, 200, -300, 100, -100])   # outside (or on) the bounds
+            else: x = 4 * rng.randint(-25, 24) + 2
+            tape.append(x)
+        vlines.append("%s %d %d %d | %s" % (k, att, imp, clr, " ".join(map(str, tape))))
+    rc, o, e, s = vf.sh([vdrv], input="\n".join(vlines) + "\n", timeout=3000); c.step("correspond:impl-vss", vdrv, s, rc == 0)
+    rc2, o2, e2, s2 = vf.sh([mbin, "vss"], input="\n".join(vlines) + "\n", timeout=3000); c.step("correspond:model-vss", mbin + " vss", s2, rc2 == 0)
+    io, mo = o.split("\n"), o2.split("\n")
+    vsucc = 0; vdiff = 0; vkinds = {}
+    for i, l in enumerate(vlines):
+        a = io[i] if i < len(io) else ""; m = mo[i].split() if i < len(mo) else []
+        k = l.split()[0]
+        halves = a.split(" | near: ")
+        if len(halves) != 2:
+            npred += 1
+            if first_pred is None: first_pred = ("VSS", l, "valid-state sampler: no observation (crash?)")
+            continue
+        for h, which in zip(halves, ["sample", "sampleNear"]):
+            nev += 1
+            if h.strip() == "none": obs = ["none"]; flags = None
+            else:
+                w = h.split("|"); obs = w[0].split(); flags = w[1].split()
+            if obs[0] == "none": same = (m == ["none"])
+            elif k == "obstacle": same = (len(m) == 3 and obs[0] == m[0] and obs[2] == m[2] and (obs[0] == "1" or float(obs[1]) == float(m[1])))
+            else: same = (len(m) == 3 and obs[0] == m[0] and float(obs[1]) == float(m[1]) and obs[2] == m[2])
+            if not same:
+                vdiff += 1; ndiff += 1
+                if first_diff is None or first_diff[0] != "VSS" or len(l) < len(first_diff[1]): first_diff = ("VSS", l, which + ": " + h, m)
+            if flags and obs[0] == "1":
+                vsucc += 1; vkinds[k] = vkinds.get(k, 0) + 1
+                tape_inb = all(abs(int(x)) <= 100 for x in l.split("|")[1].split())
+                # SpaceInformation::isValid is the checker alone: the in-bounds half is owed only when the underlying (scripted) sampler keeps its own contract
+                if flags[1] != "1" or (tape_inb and flags[0] != "1"):
+                    npred += 1
+                    if first_pred is None or len(l) < len(first_pred[1]): first_pred = ("VSS", l, "%s valid-state sampler %s() reports success with a state that is %s" % (k, which, "out of bounds" if flags[0] != "1" else "invalid"))
+    ngeo = 4000 if quick else 100000
+    rc, o, e, s = vf.sh([vdrv], input="\n".join("GEO %s %d %d" % (k, ngeo, c.seed + j) for j, k in enumerate(KINDS)) + "\n", timeout=3000)
+    c.step("impl:vss-geo", vdrv + " GEO <kind> %d" % ngeo, s, rc == 0)
+    geo = {}
+    for line in o.split("\n"):
+        w = line.split()
+        if w[:1] == ["geo"]:
+            geo[w[1]] = (int(w[3]), int(w[5]))
+            if int(w[5]):
+                npred += 1
+                if first_pred is None: first_pred = ("VSS", "GEO %s %d %d" % (w[1], ngeo, c.seed), "%s valid-state sampler reports success with an out-of-bounds or invalid state, e.g. %s" % (w[1], w[6]))
+    if len(geo) < 6: c.broken.append("valid-state sampler GEO search produced %d of 6 results (driver crashed?)" % len(geo))
     # ---- the laws on the implementation (all shipped spaces)
     names = ["RV3", "SO2", "SO3", "SE2", "SE3", "TIME", "DISC", "TORUS", "SPHERE", "SPHERE1", "MOBIUS", "KLEIN", "DUBINS", "DUBINSSYM", "RS", "MIX"]
     n = 20000 if quick else 400000
@@ -110,7 +171,9 @@ def main():
     if len(lawsum) < len(names) * len(C08_LAWS): c.broken.append("law search produced %d of %d results (driver crashed?)" % (len(lawsum), len(names) * len(C08_LAWS)))
     c.cov.update({"evaluations": nev + n * len(names), "traces_validated_against_impl": len(R.groups), "distinct_nontrivial": len(distinct),
                   "rule": "generated spaces (nesting depth <= 3 over R^n with degenerate zero-width / huge / tiny / negative bounds, SO2, bounded/unbounded time, discrete; weights incl. 0 and 1e-3): enforceBounds + satisfiesBounds on in-bounds, seam and far-outside states (angles many periods away, +-pi, 1e6), uniform / near / Gaussian default samplers with taped variates (u in {0, 1-2^-53, 1/2, 2^-53, random}; g in {0, +-1/2, +-1, +-3, +-40, random}; distance / deviation in {0, 1e-12, .3, 1, 10, 1e3, 1e6, 1e12, 1e300, random}), compared bit for bit; plus %d random cases of the enforce / sampler laws on each of 16 shipped spaces; non-trivial = distinct compound space" % n,
-                  "disagreements": ndiff, "predicate_failures": npred, "law_failures": {k: v for k, v in lawsum.items() if v}, "op_distribution": opk})
+                  "disagreements": ndiff, "predicate_failures": npred, "law_failures": {k: v for k, v in lawsum.items() if v}, "op_distribution": opk,
+                  "valid_sampler_histories": len(vlines), "valid_sampler_successes_checked": vsucc, "valid_sampler_successes_by_kind": vkinds, "valid_sampler_disagreements": vdiff,
+                  "valid_sampler_geo": {k: {"successes": v[0], "bad": v[1]} for k, v in geo.items()}})
     c.cov["samples"] = [R.groups[0][0].spec(), R.groups[0][1][0][0][:160]]
     c.cov["trusted_base"] += ["vm_compute on primitive binary64 floats (+ exact fmod/floor through SpecFloat), float printing/parsing, harness/space_driver.cpp + space_laws.h, g++ -ffp-contract=off",
                              "the RNG tape hook (guard OMPL_VERIF): uniform01/uniformReal/gaussian read their variate from the tape",
@@ -120,12 +183,14 @@ def main():
     if first_diff: c.log('first disagreement:', first_diff)
     if first_pred:
         sp, il, msg = first_pred
-        c.violation("implementation violates C08: %s on 'SPACE %s' / '%s'" % (msg, sp[:200], il[:200]), "# C08 replay: feed to build/harness/space_driver\nSPACE %s\n%s\n" % (sp, il))
+        if sp == "VSS": c.violation("implementation violates C08: %s on '%s'" % (msg, il[:200]), "# C08 replay: feed to build/harness/vss_driver\n%s\n" % il)
+        else: c.violation("implementation violates C08: %s on 'SPACE %s' / '%s'" % (msg, sp[:200], il[:200]), "# C08 replay: feed to build/harness/space_driver\nSPACE %s\n%s\n" % (sp, il))
     elif law_pred:
         c.violation("implementation violates C08: " + law_pred[1], "# C08 replay: feed to build/harness/space_driver\n" + law_pred[0] + "\n")
     elif first_diff:
         sp, il, a, m = first_diff
-        c.broken.append("correspondence C08 (enforce / samplers vs SpacesModel on binary64) differs on 'SPACE %s' / '%s': implementation '%s' model %s" % (sp[:200], il[:200], a, m))
+        if sp == "VSS": c.broken.append("correspondence C08 (valid-state sampler loops vs VssModel) differs on '%s': implementation '%s' model %s" % (il[:200], a, m))
+        else: c.broken.append("correspondence C08 (enforce / samplers vs SpacesModel on binary64) differs on 'SPACE %s' / '%s': implementation '%s' model %s" % (sp[:200], il[:200], a, m))
     c.finish()
 
 
